@@ -159,15 +159,18 @@ Variable state_override : option pstate.
 
 Definition override_given : bool := is_some state_override.
 
-Definition input_length : Z := Z.of_nat (length input).
-
-Definition code_point_at (p : Z) : option N :=
-  if (p <? 0)%Z then None else nth_error input (Z.to_nat p).
-
-(* "remaining references the code point substring from pointer + 1 to the end of the string" *)
-Definition remaining (m : machine) : list N := skipn (Z.to_nat (m_pointer m + 1)) input.
-(* "the code point substring from pointer to the end of input" *)
-Definition from_pointer (m : machine) : list N := skipn (Z.to_nat (m_pointer m)) input.
+(* How the standard reads the input through the pointer:
+     c          "references the code point the pointer points to" (None is the EOF code point),
+     remaining  "references the code point substring from pointer + 1 to the end of the string",
+     and "the code point substring from pointer to the end of input".
+   All three are determined by the last one, [substring_from pointer], called [here] below: c is its first
+   code point and remaining is its tail. The main loop [run] hands [here] to every run of the state machine;
+   it recomputes it from the pointer whenever the pointer moved other than by +1 and otherwise takes the tail,
+   which avoids walking the input from its start at every run (an optimisation of the access only: the
+   pointer remains the state, [here] is always equal to [substring_from (m_pointer m)]). *)
+Definition substring_from (p : Z) : list N := skipn (Z.to_nat p) input.
+Definition c_of (here : list N) : option N := hd_error here.
+Definition remaining (here : list N) : list N := tl here.
 
 Definition starts_with (s : list N) (prefix : list N) : bool := has_prefix prefix s.
 
@@ -193,7 +196,7 @@ Definition scheme_start_state (m : machine) (c : option N) : step_result :=
   end.
 
 (* ---------- scheme state ---------- *)
-Definition scheme_state (m : machine) (c : option N) : step_result :=
+Definition scheme_state (m : machine) (c : option N) (here : list N) : step_result :=
   let u := m_url m in
   let buffer := m_buffer m in
   let is_scheme_char :=
@@ -252,7 +255,7 @@ Definition scheme_state (m : machine) (c : option N) : step_result :=
             else if url_is_special u then SCont (set_state m SpecialAuthoritySlashesState)
             (* 2.8 Otherwise, if remaining starts with an U+002F (/), set state to path or authority state
                    and increase pointer by 1. *)
-            else if starts_with (remaining m) [47] then SCont (increase_pointer (set_state m PathOrAuthorityState))
+            else if starts_with (remaining here) [47] then SCont (increase_pointer (set_state m PathOrAuthorityState))
             (* 2.9 Otherwise, set url's path to the empty string and set state to opaque path state. *)
             else SCont (set_state (set_url m (with_path u (POpaque []))) OpaquePathState)
       else steps_3_4
@@ -284,10 +287,10 @@ Definition no_scheme_state (m : machine) (c : option N) : step_result :=
   end.
 
 (* ---------- special relative or authority state ---------- *)
-Definition special_relative_or_authority_state (m : machine) (c : option N) : step_result :=
+Definition special_relative_or_authority_state (m : machine) (c : option N) (here : list N) : step_result :=
   (* 1. If c is U+002F (/) and remaining starts with U+002F (/), then set state to special authority ignore
         slashes state and increase pointer by 1. *)
-  if c_is c 47 && starts_with (remaining m) [47]
+  if c_is c 47 && starts_with (remaining here) [47]
   then SCont (increase_pointer (set_state m SpecialAuthorityIgnoreSlashesState))
   (* 2. Otherwise, validation error, set state to relative state and decrease pointer by 1. *)
   else SCont (decrease_pointer (set_state m RelativeState) 1).
@@ -363,10 +366,10 @@ Definition relative_slash_state (m : machine) (c : option N) : step_result :=
     end.
 
 (* ---------- special authority slashes state ---------- *)
-Definition special_authority_slashes_state (m : machine) (c : option N) : step_result :=
+Definition special_authority_slashes_state (m : machine) (c : option N) (here : list N) : step_result :=
   (* 1. If c is U+002F (/) and remaining starts with U+002F (/), then set state to special authority ignore
         slashes state and increase pointer by 1. *)
-  if c_is c 47 && starts_with (remaining m) [47]
+  if c_is c 47 && starts_with (remaining here) [47]
   then SCont (increase_pointer (set_state m SpecialAuthorityIgnoreSlashesState))
   (* 2. Otherwise, validation error, set state to special authority ignore slashes state and decrease pointer by 1. *)
   else SCont (decrease_pointer (set_state m SpecialAuthorityIgnoreSlashesState) 1).
@@ -516,7 +519,7 @@ Definition port_state (m : machine) (c : option N) : step_result :=
   end.
 
 (* ---------- file state ---------- *)
-Definition file_state (m : machine) (c : option N) : step_result :=
+Definition file_state (m : machine) (c : option N) (here : list N) : step_result :=
   (* 1. Set url's scheme to "file". 2. Set url's host to the empty string. *)
   let u := with_host (with_scheme (m_url m) sc_file) (Some HEmpty) in
   let m := set_url m u in
@@ -543,7 +546,7 @@ Definition file_state (m : machine) (c : option N) : step_result :=
             (* 4.4.2 If the code point substring from pointer to the end of input does not start with a Windows
                      drive letter, then shorten url's path.
                4.4.3 Otherwise: 1. Validation error. 2. Set url's path to the empty list. *)
-            let ou := if negb (starts_with_windows_drive_letter (from_pointer m)) then shorten_path u
+            let ou := if negb (starts_with_windows_drive_letter here) then shorten_path u
                       else Some (with_path u (PList [])) in
             (* 4.4.4 Set state to path state and decrease pointer by 1. *)
             match ou with
@@ -556,7 +559,7 @@ Definition file_state (m : machine) (c : option N) : step_result :=
     end.
 
 (* ---------- file slash state ---------- *)
-Definition file_slash_state (m : machine) (c : option N) : step_result :=
+Definition file_slash_state (m : machine) (c : option N) (here : list N) : step_result :=
   (* 1. If c is U+002F (/) or U+005C (\), then: 1. If c is U+005C (\), validation error.
         2. Set state to file host state. *)
   if c_is c 47 || c_is c 92 then SCont (set_state m FileHostState)
@@ -579,7 +582,7 @@ Definition file_slash_state (m : machine) (c : option N) : step_result :=
               end in
             match base_path0_is_drive with
             | Some p0 =>
-                if negb (starts_with_windows_drive_letter (from_pointer m)) then
+                if negb (starts_with_windows_drive_letter here) then
                   match append_segment u p0 with
                   | Some u => Some (set_url m u)
                   | None => None
@@ -787,25 +790,25 @@ Definition fragment_state (m : machine) (c : option N) : step_result :=
   | None => SCont m
   end.
 
-(* one run of the state machine: "switching on state" *)
-Definition step (m : machine) : step_result :=
-  let c := code_point_at (m_pointer m) in
+(* one run of the state machine: "switching on state"; [here] is [substring_from (m_pointer m)] *)
+Definition step (m : machine) (here : list N) : step_result :=
+  let c := c_of here in
   match m_state m with
   | SchemeStartState => scheme_start_state m c
-  | SchemeState => scheme_state m c
+  | SchemeState => scheme_state m c here
   | NoSchemeState => no_scheme_state m c
-  | SpecialRelativeOrAuthorityState => special_relative_or_authority_state m c
+  | SpecialRelativeOrAuthorityState => special_relative_or_authority_state m c here
   | PathOrAuthorityState => path_or_authority_state m c
   | RelativeState => relative_state m c
   | RelativeSlashState => relative_slash_state m c
-  | SpecialAuthoritySlashesState => special_authority_slashes_state m c
+  | SpecialAuthoritySlashesState => special_authority_slashes_state m c here
   | SpecialAuthorityIgnoreSlashesState => special_authority_ignore_slashes_state m c
   | AuthorityState => authority_state m c
   | HostState => host_state m c
   | HostnameState => host_state m c
   | PortState => port_state m c
-  | FileState => file_state m c
-  | FileSlashState => file_slash_state m c
+  | FileState => file_state m c here
+  | FileSlashState => file_slash_state m c here
   | FileHostState => file_host_state m c
   | PathStartState => path_start_state m c
   | PathState => path_state m c
@@ -816,18 +819,36 @@ Definition step (m : machine) : step_result :=
 
 (* Step 9 of the basic URL parser: "Keep running the following state machine by switching on state. If after
    a run pointer points to the EOF code point, go to the next step. Otherwise, increase pointer by 1 and
-   continue with the state machine."  Step 10: "Return url." *)
-Fixpoint run (fuel : nat) (m : machine) : outcome :=
+   continue with the state machine."  Step 10: "Return url."
+
+   Invariant: here = substring_from (m_pointer m), and 0 <= m_pointer m.
+   After a run the pointer p' may be -1 ("points nowhere": after "decrease pointer by 1" at the first code
+   point, or "start over"); that is not the EOF code point, and the increase makes it 0. *)
+Fixpoint run (fuel : nat) (m : machine) (here : list N) : outcome :=
   match fuel with
   | O => OutOfFuel
   | S fuel' =>
-      match step m with
+      match step m here with
       | SRet u => Done u
       | SFail u => Failed u
       | SBug => AssertViolated
       | SCont m' =>
-          if (input_length <=? m_pointer m')%Z then Done (m_url m')
-          else run fuel' (increase_pointer m')
+          let p := m_pointer m in
+          let p' := m_pointer m' in
+          if (p' <? 0)%Z then
+            (* points nowhere; increase pointer by 1 *)
+            let m'' := increase_pointer m' in
+            run fuel' m'' (substring_from (m_pointer m''))
+          else
+            (* here' = substring_from p' *)
+            let here' :=
+              if (p' =? p)%Z then here
+              else if (p' =? p + 1)%Z then tl here
+              else substring_from p' in
+            match here' with
+            | [] => Done (m_url m')                            (* pointer points to the EOF code point *)
+            | _ :: next => run fuel' (increase_pointer m') next
+            end
       end
   end.
 
@@ -870,4 +891,4 @@ Definition basic_url_parse (dta : list N -> option (list N))
     end in
   let input := remove_tab_newline input in
   let state := match state_override with Some s => s | None => SchemeStartState end in
-  run dta input base state_override (parser_fuel input) (mkM url state [] false false false 0).
+  run dta input base state_override (parser_fuel input) (mkM url state [] false false false 0) input.
